@@ -5,7 +5,7 @@ ID=$1; shift
 export GOFLAGS=-mod=mod GOPROXY=off GOSUMDB=off GOTOOLCHAIN=local
 W=/tmp/mut-$ID
 low=$(echo $ID | tr 'A-Z' 'a-z')
-demo=$(ls $W/server/zz_demo_*_test.go $W/protocol/zz_demo_*_test.go 2>/dev/null | head -1)
+demo=$(ls $W/server/zz_demo_*_test.go $W/protocol/zz_demo_*_test.go $W/client/zz_demo_*_test.go 2>/dev/null | head -1)
 pkg=$(basename $(dirname $demo))
 echo "== confirm in scratch worktree ($demo)"
 (cd $W && git checkout -q -- . && go test -vet=off -count=1 -run 'TestDemo' ./$pkg/ >/tmp/seed-$ID-without.log 2>&1; echo "without change: rc=$?")
